@@ -5,7 +5,7 @@ from __future__ import annotations
 from typing import Callable
 
 from .core import Program, Report, finish
-from .rules import rcustom, rf, rg, rk, rl, rs, rsmall, rt, ru
+from .rules import rcustom, rf, rg, rk, rl, rn, rs, rsmall, rt, ru
 from .rules.tables import TABLE
 
 ASSUME = [
@@ -30,7 +30,7 @@ def gates(pid: str) -> Rule:
 
 FROM_TO_DOM = ("prosemirror/model/from_dom.py", "prosemirror/model/to_dom.py")
 
-prop("C01", "RG gates on the step/replace mechanisms, RK-registry (all step types decodable)", [gates("C01"), rk.rule_rk_registry, rcustom.rule_rg3])
+prop("C01", "RG gates on the step/replace mechanisms, RK-registry (all step types decodable)", [gates("C01"), rk.rule_rk_registry, rcustom.rule_rg3, rcustom.rule_rq])
 prop("C05", "RK-json (writer/reader key agreement for 11 to_json/from_json pairs), RK-registry, RT2 (attribute presence by membership), RG gates on conditional JSON keys", [rk.rule_rk_json, rk.rule_rk_registry, rt.rule_rt2, rf.rule_rf_json, gates("C05")])
 prop("C06", "RK-kinds (expression kinds agree between parser, NFA compiler and type), RM (group membership on split lists), RG gates of schema build", [rk.rule_rk_kinds, rsmall.rule_rm, gates("C06")])
 prop("C08", "RS (flat record arrays ranges/mirror: writer arity, reader residues, selectors, accumulator), RI (guarded index not advanced before use), RL over map.py, RG gates of the mapping algebra", [
@@ -41,6 +41,7 @@ prop("C08", "RS (flat record arrays ranges/mirror: writer arity, reader residues
     rs.rule_ri,
     lambda p, r: rl.rule_rl(p, r, files=("prosemirror/transform/map.py",)),
     gates("C08"),
+    lambda p, r: rn.rule_rsib(p, r, only=(), parts=("maptouch",)),
 ])
 prop("C09", "RU (UTF-16 positions never mixed with code-point counts in any function handling TextNode.text), RS on ResolvedPos.path, RL + ranking on find_index/resolve/node_at, RG gates (bounded child lookup)", [
     lambda p, r: ru.rule_ru(p, r, min_funcs=8),
@@ -48,6 +49,7 @@ prop("C09", "RU (UTF-16 positions never mixed with code-point counts in any func
     lambda p, r: rl.rule_rl(p, r, files=("prosemirror/model/fragment.py", "prosemirror/model/resolvedpos.py", "prosemirror/model/node.py")),
     lambda p, r: rl.rule_rl_rank(p, r, [("prosemirror/model/fragment.py::Fragment.find_index", "counter"), ("prosemirror/model/resolvedpos.py::ResolvedPos.resolve", "descent"), ("prosemirror/model/node.py::Node.node_at", "descent")]),
     gates("C09"),
+    lambda p, r: rn.rule_rsib(p, r, only=(), parts=("loop",)),
 ])
 prop("C12", "RE (constant index into possibly-empty wrapping), RD (no discarded result of a pure call), RG gates of the structure helpers", [rsmall.rule_re, rsmall.rule_rd, gates("C12")])
 prop("C14", "RT (lazy copies in Mark.add_to_set / NodeType.allowed_marks tested by identity), RM (mark group membership on split lists), RG gates of the mark-set algebra", [lambda p, r: rt.rule_rt(p, r), rsmall.rule_rm, gates("C14")], [rt.rule_rt_xref])
@@ -67,14 +69,15 @@ prop("C20", "RL (no stuck cycle path) + ranking variable on find_diff_start/find
 ], [lambda p, r: rl.rule_rl(p, r)])
 
 prop("C02", "RG gates of the replace algorithm (validation through close(), open-depth guards, text merging, range cutting), RU on the text cuts", [gates("C02"), lambda p, r: ru.rule_ru(p, r, files=("prosemirror/model/fragment.py", "prosemirror/model/node.py"))])
-prop("C04", "RG gates of history bookkeeping and of the inverse constructions", [gates("C04")])
+prop("C03", "RN (get_map of both replace steps is the documented function of the fields apply uses; size-preserving steps report the empty map), RS-accumulator on StepMap.for_each, RP-add_step (the mapping receives the map of the step just recorded), RG forms of the node-level steps", [rn.rule_rn_formulas, rs.rule_rs_accumulator, rcustom.rule_rp_add_step, gates("C03"), lambda p, r: rn.rule_rsib(p, r, only=(), parts=("trio",))])
+prop("C04", "RG gates of history bookkeeping and of the inverse constructions", [gates("C04"), rn.rule_rn_formulas, rcustom.rule_rp_add_step, rf.rule_rf_accumulators, lambda p, r: rn.rule_rsib(p, r, only=("MarkStep",))])
 prop("C07", "RG gates: each validity predicate contains the conjuncts of the definition of validity", [gates("C07"), rcustom.rule_rc_dep])
 prop("C10", "RF (no in-place write reaches a shared value): RF-mut (every in-place mutation has a fresh receiver or a declared non-value owner), RF-attr (value-type fields assigned only in __init__), RF-acc (accumulators append-only, single writer), RF-json, RD, RG gates on identity shortcuts", [rf.rule_rf_mutations, rf.rule_rf_attr_stores, rf.rule_rf_accumulators, rf.rule_rf_json, rsmall.rule_rd, gates("C10")])
-prop("C11", "RG gates of the fitter (mark filter on placement, isolating barrier), RT on NodeType.allowed_marks", [gates("C11"), lambda p, r: rt.rule_rt(p, r, only={"prosemirror/model/schema.py::NodeType.allowed_marks"})])
+prop("C11", "RP-fitter (placed / frontier-match pairing, frontier pushes), RG gates of the fitter (mark filter on placement, isolating barrier), RT on NodeType.allowed_marks", [rcustom.rule_rp_fitter, gates("C11"), lambda p, r: rt.rule_rt(p, r, only={"prosemirror/model/schema.py::NodeType.allowed_marks"})])
 prop("C13", "RG gates of the mark planners (coalescing conditions, permission), RT on Mark.add_to_set, RU on clear_incompatible", [gates("C13"), lambda p, r: rt.rule_rt(p, r, only={"prosemirror/model/mark.py::Mark.add_to_set"}), lambda p, r: ru.rule_ru(p, r, files=("prosemirror/transform/transform.py",))])
 prop("C15", "RG gates of the fill and wrapper searches (generatable guard, seen-set discipline, BFS order)", [gates("C15")])
-prop("C16", "RG gates: merge guards of ReplaceStep / AddMarkStep / RemoveMarkStep", [gates("C16"), rcustom.rule_merge_slices])
-prop("C17", "RG gates: keep/drop conditions of every Step.map", [gates("C17")])
+prop("C16", "RG gates: merge guards of ReplaceStep / AddMarkStep / RemoveMarkStep", [gates("C16"), rcustom.rule_merge_slices, lambda p, r: rn.rule_rsib(p, r, only=(".merge",))])
+prop("C17", "RG gates: keep/drop conditions of every Step.map", [gates("C17"), rn.rule_rn_assoc, lambda p, r: rn.rule_rsib(p, r, only=(".map",))])
 
 
 _PROG: Program | None = None
